@@ -275,6 +275,10 @@ def gen_case(rnd, profile="mixed", size="small"):
     else:
         pct = rnd.choice(["0.1", "0.25", "1", "0.5", "2.5", "0", "0.075", "10", "33.3333"])
         mn = rnd.choice(["0", "0", "0.01", "1", "0.005", "5", "2.5"])
+        if profile == "fees" and len(pairs) % 2 == 1 and pct in ("0.1", "0.25", "1"):
+            # rates and minimums a hair above a round value (a Decimal built from a float, a negotiated rate)
+            pct = pct + "000000000001" if "." in pct else pct + ".0000000000001"
+            mn = {"0.01": "0.0100000000001", "2.5": "2.5000000000001"}.get(mn, mn)
         fee = [pct, mn]
     # liquidity
     r = rnd.random()
@@ -303,7 +307,7 @@ def gen_case(rnd, profile="mixed", size="small"):
             isym = rnd.choice(["USD", "USD", "same", "same"] + (syms if profile in ("noprice", "loans") else []))
             if profile == "noprice" and rnd.random() < 0.5:
                 isym = rnd.choice(syms)
-            return [isym, rnd.choice(["0", "10", "5", "0.5", "100", "7.3"]),
+            return [isym, rnd.choice(["0", "10", "5", "0.5", "100", "7.3"] + (["-5"] if profile == "loans" else [])),
                     rnd.choice([0, 64, 1024, 4096, 65536, 1048576]) if not (profile == "noprice" and rnd.random() < 0.5) else 0,
                     rnd.choice(["0", "0", "0.01", "1", "0.005", "3"]),
                     rnd.choice(["0", "0.1", "0.5", "1", "3", "0.25"])]
@@ -645,9 +649,14 @@ def gen_boundary(rnd, dust=False):
         bars[1][2] = dec(close + tick, cp)
     limit = dec(price, qp) if kind in ("limit", "stoplimit") else None
     stop = dec(price, qp) if kind in ("stop", "stoplimit") else None
-    script = {"0": [["create", kind, op, 0, dec(amount, bp), limit, stop, False, False]]}
+    # requests that may borrow but do not need to (exactly covered): margin lending configured, auto_borrow set
+    may_borrow = (not short) and (not dust) and amount.numerator % 3 == 0
+    lend = None
+    if may_borrow:
+        lend = {"quote": "USD", "default": ["USD", "10", 4096, "0", "0.5"], "conds": {}}
+    script = {"0": [["create", kind, op, 0, dec(amount, bp), limit, stop, may_borrow, False]]}
     return {"syms": ["BTC", "USD"], "pairs": [["BTC", "USD"]], "sym_prec": {"BTC": bp, "USD": qp}, "pair_info": {},
-            "default_pair": None, "fee": fee, "liq": rnd.choice([None, ["25", "0"]]) if not dust else None, "lend": None,
+            "default_pair": None, "fee": fee, "liq": rnd.choice([None, ["25", "0"]]) if not dust else None, "lend": lend,
             "initial": initial,
             "bars": bars, "script": script, "subscribe_first": False, "profile": "boundary", "ample": False,
             "boundary_short": short}
